@@ -118,3 +118,62 @@ theorem fixNs_pframed : ∀ (fuel : Nat) (H : NsHeap) (n : Nat) (par nsid : Opti
     exact fixNs_fold_pframed fuel n _ (fixNs_pframed fuel) H1 (H.kids n) (fun c hc => by rw [hf1.kids_eq]; exact hc)
 
 end Metapype
+
+namespace Metapype
+
+theorem NsHeap.setNs_self (H : NsHeap) (c r : Nat) (h : H.ns c = r) : H.setNs c r = H := by
+  cases H with
+  | mk kids ns cell next =>
+    simp only [NsHeap.setNs] at h ⊢
+    congr
+    funext a
+    by_cases ha : a = c
+    · rw [if_pos ha, ha]; exact h.symm
+    · rw [if_neg ha]
+
+theorem fixNs_all_shared_fold (r0 fuel c : Nat) (id : Option Nat) (H : NsHeap)
+    (IH : ∀ (c' : Nat) (par nsid : Option Nat), (∀ x, Reach H.kids c' x → H.ns x = r0) → (par = none ∨ par = some r0) →
+      fixNs fuel H c' par nsid = H)
+    (hall : ∀ x, Reach H.kids c x → H.ns x = r0) :
+    ∀ (cs : List Nat), (∀ c' ∈ cs, c' ∈ H.kids c) →
+      cs.foldl (fun Hc c' =>
+        if some (Hc.ns c') = id then fixNs fuel (Hc.setNs c' (Hc.ns c)) c' (some (Hc.ns c)) id
+        else fixNs fuel Hc c' (some (Hc.ns c)) none) H = H
+  | [], _ => rfl
+  | c' :: cs, hk => by
+    simp only [List.foldl_cons]
+    have hc : H.ns c = r0 := hall c (Reach.refl c)
+    have hc'k : c' ∈ H.kids c := hk c' List.mem_cons_self
+    have hall' : ∀ x, Reach H.kids c' x → H.ns x = r0 := fun x hx => hall x (Reach.step hc'k hx)
+    have hc' : H.ns c' = r0 := hall' c' (Reach.refl c')
+    have hstep : (if some (H.ns c') = id then fixNs fuel (H.setNs c' (H.ns c)) c' (some (H.ns c)) id
+        else fixNs fuel H c' (some (H.ns c)) none) = H := by
+      split
+      · rw [NsHeap.setNs_self H c' (H.ns c) (by rw [hc', hc])]
+        exact IH c' _ _ hall' (Or.inr (by rw [hc]))
+      · exact IH c' _ _ hall' (Or.inr (by rw [hc]))
+    rw [hstep]
+    exact fixNs_all_shared_fold r0 fuel c id H IH hall cs (fun x hx => hk x (List.mem_cons_of_mem _ hx))
+
+/-- on a subtree all of whose nodes hold one and the same dict object `r0`, `fix_nsmap` (entry call or propagated call
+    from a parent holding `r0`) changes nothing at all -/
+theorem fixNs_all_shared (r0 : Nat) : ∀ (fuel : Nat) (H : NsHeap) (c : Nat) (par nsid : Option Nat),
+    (∀ x, Reach H.kids c x → H.ns x = r0) → (par = none ∨ par = some r0) → fixNs fuel H c par nsid = H
+  | 0, H, c, par, nsid, _, _ => by simp only [fixNs]
+  | fuel + 1, H, c, none, nsid, hall, _ => by
+    simp only [fixNs]
+    exact fixNs_all_shared_fold r0 fuel c _ H (fun c' par nsid => fixNs_all_shared r0 fuel H c' par nsid) hall (H.kids c) (fun _ h => h)
+  | fuel + 1, H, c, some r, nsid, hall, hpar => by
+    have hc : H.ns c = r0 := hall c (Reach.refl c)
+    have hr : r = r0 := by
+      rcases hpar with hp | hp
+      · cases hp
+      · cases hp; rfl
+    subst hr
+    simp only [fixNs, hc, BEq.rfl, Bool.true_or, if_true]
+    rw [NsHeap.setNs_self H c r hc]
+    have := fixNs_all_shared_fold r fuel c (match nsid with | none => some r | some i => some i) H
+      (fun c' par nsid => fixNs_all_shared r fuel H c' par nsid) hall (H.kids c) (fun _ h => h)
+    exact this
+
+end Metapype
